@@ -18,6 +18,24 @@ def closure(ctx, exe, esz, hasx, maxn, props):
                expect_states=2 * r.distinct)   # the driver also swaps with a second (empty) vector object
 
 
+def vec_line(o):
+    op = o["op"]
+    kind = {"n": 0, "max": 1, "maxdiv": 2}
+    if op in ("reserve", "resize"):
+        return f"{0 if op == 'reserve' else 1} {kind[o['t']['k']]} {o['t']['n']} {0 if o['a'] else 1}"
+    if op == "shrink": return f"2 {0 if o['a'] else 1}"
+    if op == "clear": return "3"
+    if op == "sort": return f"4 {o['algo']}"
+    if op == "reverse": return "5"
+    raise HarnessError(f"no driver line for generated operation {o}")
+
+
+def generated(ctx, exe, tag, esz, hasx, maxn, depth, num, props):
+    """spec -> code: walks of the Vector machine chosen by TLC's simulator, replayed into src/vector.c"""
+    gen_replay(ctx, tag, "GenVector", "", consts(esz, hasx) + f"\n  MaxN = {maxn}", depth, num, vec_line, exe, [esz, int(hasx), maxn, 1],
+               "TraceVec", consts(esz, hasx), props)
+
+
 def run(ctx):
     props = {ctx.pid}
     exe = build(ctx, "drv_vec", "drv_vec.c", LIB, wrap=WRAP)
@@ -28,6 +46,11 @@ def run(ctx):
     sizes = [(1, False), (4, True), (64, False)] if ctx.quick else [(1, True), (2, False), (3, True), (4, False), (8, True), (16, False), (64, True)]
     for esz, hasx in sizes:
         closure(ctx, exe, esz, hasx, 4 if ctx.quick else 5, props)
+    if ctx.quick:
+        generated(ctx, exe, "gen-e3x", 3, True, 12, 30, 10, props)
+    else:
+        generated(ctx, exe, "gen-e3x", 3, True, 20, 60, 100, props)
+        generated(ctx, exe, "gen-e16", 16, False, 20, 60, 100, props)
     if not ctx.quick:
         # objects set up with the CSTL_*_INITIALIZER macros instead of the init functions: same closure, same model
         closure(ctx, build(ctx, "drv_vec_macro", "drv_vec.c", LIB, wrap=WRAP, defs=["USE_INITIALIZER"]), 4, False, 4, props)
